@@ -14,6 +14,7 @@
      3  a returned estimate is not usage + delta of the stored report and sums
      5  a Filter status is not the threshold / expiry decision on the estimate the cache
         returned for the node
+     6  a Score is not the weighted least-used score of that estimate plus the incoming pod
      9  malformed observation *)
 From Coq Require Import List ZArith Bool.
 From Verif Require Import Lib.SortX C08.Model.
@@ -23,19 +24,6 @@ Open Scope Z_scope.
 Definition sums_eqb (a b : sums) : bool :=
   vec_eqb (s_prodUsage a) (s_prodUsage b) && vec_eqb (s_nodeDelta a) (s_nodeDelta b)
   && vec_eqb (s_prodDelta a) (s_prodDelta b) && vec_eqb (s_nodeEst a) (s_nodeEst b).
-Definition ovec_eqb (a b : option vec) : bool :=
-  match a, b with
-  | Some x, Some y => vec_eqb x y
-  | None, None => true
-  | _, _ => false
-  end.
-Fixpoint list_eqb {A} (eqb : A -> A -> bool) (a b : list A) : bool :=
-  match a, b with
-  | [], [] => true
-  | x :: a', y :: b' => eqb x y && list_eqb eqb a' b'
-  | _, _ => false
-  end.
-
 (* ---------------------------------------------------------------- one node's view *)
 (* [n] is what the events imply for the node (None: nothing assigned, no report) *)
 Definition spec_uids (n : option ninfo) : list Z :=
@@ -95,6 +83,10 @@ Definition variant_observed (cfg : config) (nd : nodeobj) (p : pod) : bool :=
   let '(_, _, aggT, aggD, prodPod) := select_thresholds (node_profile cfg nd) (is_prod p) in
   is_some (variant_index (prodPod, aggT, aggD) variants).
 
+Definition score_observed (cfg : config) (p : pod) : bool :=
+  let '(prodPod, aggT, aggD) := score_variant cfg p in
+  is_some (variant_index (prodPod, aggT, aggD) variants).
+
 Definition view_state (m : option metric) (o : option nobs)
   : option (metric * (bool -> Z -> Z -> option vec)) :=
   match m, view_detail o with
@@ -112,6 +104,12 @@ Definition op_ok (cfg : config) (c : cache) (o : op) (r : Z) (view : list (optio
     r = filter_decide cfg nd p
           (view_state (spec_metric (alookup (nd_name nd) c))
                       (nth (Nat.pred (Z.to_nat (nd_name nd))) view None))
+  | OScore _ nd p =>
+    score_observed cfg p = true ->
+    In (nd_name nd) universe ->
+    r = score_decide cfg nd p
+          (view_state (spec_metric (alookup (nd_name nd) c))
+                      (nth (Nat.pred (Z.to_nat (nd_name nd))) view None))
   | _ => r = 0
   end.
 Definition op_code (cfg : config) (c : cache) (o : op) (r : Z) (view : list (option nobs)) : Z :=
@@ -122,6 +120,13 @@ Definition op_code (cfg : config) (c : cache) (o : op) (r : Z) (view : list (opt
                 (view_state (spec_metric (alookup (nd_name nd) c))
                             (nth (Nat.pred (Z.to_nat (nd_name nd))) view None))
       then 0 else 5
+    else 0
+  | OScore _ nd p =>
+    if score_observed cfg p && existsb (Z.eqb (nd_name nd)) universe then
+      if r =? score_decide cfg nd p
+                (view_state (spec_metric (alookup (nd_name nd) c))
+                            (nth (Nat.pred (Z.to_nat (nd_name nd))) view None))
+      then 0 else 6
     else 0
   | _ => if r =? 0 then 0 else 9
   end.
